@@ -57,6 +57,7 @@ type uniLog struct {
 }
 
 func (u *uniLog) add(s string) {
+	atomic.AddInt64(&uniCount, 1)
 	u.mu.Lock()
 	u.events = append(u.events, s)
 	u.mu.Unlock()
@@ -256,8 +257,104 @@ func errClass(err error) string {
 	return strings.ReplaceAll(s, " ", "-")
 }
 
+// ---------- coverage accounting: distinct and non-trivial, measured ----------
+
+// A case is identified by (configuration, expected delivery); it is NON-TRIVIAL when delivering it
+// involves at least one of: a literal on the wire (section payloads; strings with CR/LF, 8-bit
+// bytes, more than 4096 bytes), an escaped or encoded string (quote, backslash, RFC 2047,
+// modified UTF-7), a nested body structure / embedded message, a number >= 2^31, or a protocol
+// canonicalisation that changes the supplied value (FETCH: print(supplied) != print(wire(supplied))).
+const sigShards = 64
+
+var sigSets [sigShards]struct {
+	mu sync.Mutex
+	m  map[uint64]struct{}
+}
+
+func sigOf(cfg string, exp []kv) uint64 {
+	h := uint64(14695981039346656037)
+	mix := func(s string) {
+		for i := 0; i < len(s); i++ {
+			h ^= uint64(s[i])
+			h *= 1099511628211
+		}
+		h ^= 0xff
+		h *= 1099511628211
+	}
+	mix(cfg)
+	for _, e := range exp {
+		mix(e.P)
+		mix(e.V)
+	}
+	return h
+}
+
+func isBigNumber(v string) bool {
+	if len(v) < 10 || len(v) > 20 {
+		return false
+	}
+	for i := 0; i < len(v); i++ {
+		if v[i] < '0' || v[i] > '9' {
+			return false
+		}
+	}
+	return len(v) > 10 || v >= "2147483648"
+}
+
+func nontrivialFlat(exp []kv) bool {
+	for _, e := range exp {
+		if strings.Contains(e.P, ".literal.") || strings.Contains(e.P, ".children[") || strings.Contains(e.P, ".msg.") {
+			return true
+		}
+		if strings.Contains(e.V, "...(") || isBigNumber(e.V) {
+			return true
+		}
+		// escapes show up as backslashes in the quoted rendering; flag and attribute atoms
+		// (\Seen) and the events of the unilateral log are not strings in that sense
+		if strings.Contains(e.P, "flags") || strings.Contains(e.P, ".attrs") || strings.HasPrefix(e.P, "update[") || strings.HasPrefix(e.P, "fetchupdate[") {
+			continue
+		}
+		if strings.ContainsAny(e.V, "\\&") {
+			return true
+		}
+	}
+	return false
+}
+
+var distinctCases, distinctNontrivial int64
+
+func (cn *conn) account(exp []kv, force bool) {
+	sig := sigOf(cn.cfg.Name, exp)
+	sh := &sigSets[sig%sigShards]
+	sh.mu.Lock()
+	if sh.m == nil {
+		sh.m = map[uint64]struct{}{}
+	}
+	_, seen := sh.m[sig]
+	_, seenNT := sh.m[^sig]
+	nt := !seenNT && (force || nontrivialFlat(exp))
+	if !seen {
+		sh.m[sig] = struct{}{}
+	}
+	if nt {
+		sh.m[^sig] = struct{}{}
+	}
+	sh.mu.Unlock()
+	if !seen {
+		atomic.AddInt64(&distinctCases, 1)
+	}
+	if nt {
+		atomic.AddInt64(&distinctNontrivial, 1)
+	}
+}
+
+// markNontrivial records that the case with this expectation is non-trivial for a reason the
+// flattened expectation does not show (a canonicalisation changed the supplied value).
+func (cn *conn) markNontrivial(exp []kv) { cn.account(exp, true) }
+
 // compare builds an outcome from expected and delivered flattened data.
-func compare(fam string, exp, got []kv, cmdErr error, extra map[string]interface{}) outcome {
+func (cn *conn) compare(fam string, exp, got []kv, cmdErr error, extra map[string]interface{}) outcome {
+	cn.account(exp, false)
 	if cmdErr != nil {
 		d := map[string]interface{}{"error": cmdErr.Error(), "expected": kvString(exp)}
 		for k, v := range extra {
@@ -391,6 +488,17 @@ type job struct {
 func mkJobs(thorough bool) []job {
 	var jobs []job
 	for _, f := range families {
+		// batch-compatibility keys, computed once per family on all cores (generators are pure)
+		var keys []string
+		if f.group != nil {
+			keys = make([]string, f.n)
+			g := f.group
+			vk.Parallel((f.n+255)/256, func(b int) {
+				for i := b * 256; i < (b+1)*256 && i < len(keys); i++ {
+					keys[i] = g(i)
+				}
+			})
+		}
 		for _, ci := range f.cfgs {
 			var cur []int
 			curKey := ""
@@ -402,8 +510,8 @@ func mkJobs(thorough bool) []job {
 			}
 			for i := 0; i < f.n; i++ {
 				k := ""
-				if f.group != nil {
-					k = f.group(i)
+				if keys != nil {
+					k = keys[i]
 				}
 				if len(cur) > 0 && (k != curKey || len(cur) >= f.batch) {
 					flush()
@@ -451,13 +559,6 @@ func (w *worker) runJob(j job) {
 	f := j.fam
 	outs := w.execSafe(f, j.cfg, j.idxs)
 	run.AddEvals(int64(len(j.idxs)))
-	nt := int64(0)
-	for _, i := range j.idxs {
-		if f.nontrivial == nil || f.nontrivial(i) {
-			nt++
-		}
-	}
-	run.NontrivialN(nt)
 	run.Add("cases:"+f.name, int64(len(j.idxs)))
 	run.Add("commands", 1)
 	bad := false
@@ -669,6 +770,8 @@ func main() {
 	close(stopWD)
 
 	flushReports()
+	run.NontrivialN(atomic.LoadInt64(&distinctNontrivial))
+	run.Set("distinct_cases", atomic.LoadInt64(&distinctCases))
 	run.Exhaustive = true
 	var names []string
 	total := 0
@@ -680,8 +783,12 @@ func main() {
 	run.Set("configs", []string{configs[0].Name, configs[1].Name, configs[2].Name})
 	run.Set("total_cases", total)
 	run.Rule = ruleText
-	if run.Evals == 0 || run.Get("cases:fetch-sections") == 0 {
-		run.EngineError("non-vacuity: nothing was executed")
+	run.Set("fetch_messages_delivered", atomic.LoadInt64(&msgCount))
+	run.Set("literals_compared", atomic.LoadInt64(&litCount))
+	run.Set("literal_bytes_compared", atomic.LoadInt64(&litBytes))
+	run.Set("unilateral_events_delivered", atomic.LoadInt64(&uniCount))
+	if os.Getenv("C03_ONLY") == "" && (run.Evals == 0 || msgCount == 0 || litCount == 0 || uniCount == 0 || distinctNontrivial == 0) {
+		run.EngineError("non-vacuity: messages=%d literals=%d unilateral events=%d non-trivial cases=%d", msgCount, litCount, uniCount, distinctNontrivial)
 	}
 	for _, f := range families {
 		if f.n > 0 {
@@ -694,7 +801,8 @@ func main() {
 	run.Finish()
 }
 
-const ruleText = "string alphabet S = {\"\", a, 'a b', a\"b, a\\b, a CRLF b, é, {3}, (, ), NIL, nil, 4097*a} (+ \\xff in literal payloads): " +
+const ruleText = "distinct = distinct (configuration, expected delivery) pairs; non-trivial = delivering the case involves a literal on the wire (section payload, CR/LF, 8-bit, > 4096 bytes), an escaped / RFC 2047 / UTF-7 encoded string, a nested body structure or embedded message, a number >= 2^31, or a canonicalisation that changes the supplied value; both are counted by the engine per executed case. " +
+	"string alphabet S = {\"\", a, 'a b', a\"b, a\\b, a CRLF b, é, {3}, (, ), NIL, nil, 4097*a} (+ \\xff in literal payloads): " +
 	"one symbol per branch of Encoder.String/validQuoted (empty, plain, SP, the two escaped bytes, CR/LF => literal, 8-bit => literal unless UTF-8 quoting is on, length 4097 > 4096 => literal) " +
 	"and per token the decoders treat specially (literal look-alike, parentheses, NIL in both cases); " +
 	"numbers: 0, 1, 2^32-1, 2^32, 2^63-1 as the field type allows; literal sizes 0,1,4095,4096,4097,70000 (bufio 4096 boundary, > 64 KiB); " +
